@@ -321,6 +321,6 @@ def write_evidence(pid, ev):
 
 def write_replay(pid, name, obj):
     os.makedirs(REPLAYS, exist_ok=True)
-    p = os.path.join(REPLAYS, "%s-%s.json" % (pid, name))
+    p = os.path.join(REPLAYS, "%s-%s-%d.json" % (pid, name, os.getpid()))
     json.dump(obj, open(p, "w"), indent=1)
     return p
